@@ -113,5 +113,10 @@ func (f *Dolist) Call(s *slip.Scope, args slip.List, depth int) slip.Object {
 	}
 	ns.UnsafeLet(sym, nil)
 
-	return ns.Eval(rform, d2)
+	result := ns.Eval(rform, d2)
+	// The result form is inside the nil block of the loop as well.
+	if rr, ok := result.(*slip.ReturnResult); ok && rr.Tag == nil {
+		result = rr.Result
+	}
+	return result
 }
